@@ -605,6 +605,8 @@ explore (const char *cfg, int bound, int canary, long max_schedules)
       if (npts > 60)
         vh_stat ("horizon_capped_executions", 1);
     }
+  if (sp > 0 && !canary)
+    vh_stat ("configurations_with_schedule_cap_hit", 1);      /* only trees with shared accesses get here: more than 400 schedules within the bound */
   return found;
 }
 
@@ -668,7 +670,7 @@ config (int nt, const int (*opsel)[2], const int *nop, const char *cfg, int cana
   for (int b = 0; b <= 2 && !found; b += 2)
     {
       long before = schedules;
-      found += explore (cfg, b, canary, canary ? 300 : 20000);
+      found += explore (cfg, b, canary, canary ? 300 : 400);
       if (b == 2)
         vh_stat ("schedules_at_bound_2", schedules - before);
     }
